@@ -341,6 +341,56 @@ def load_waived():
     return {(x.get("fn"), x.get("label")) for x in k.get("findings", []) if x.get("fn") and x.get("label") and not x.get("site_text")}
 
 
+def _squash(t):
+    """whitespace-free text with rustfmt's optional trailing commas removed"""
+    t = re.sub(r"\s+", "", t)
+    return re.sub(r",(?=[)\]}])", "", t)
+
+
+def _anchor_across_lines(src_lines, anchor, exact=False):
+    """Find `anchor` in the function text ignoring layout.  -> (first line, last line of the enclosing statement) or None
+    when it does not occur exactly once.  For `after` insertions the statement is followed to its terminating `;`."""
+    a = _squash(anchor)
+    if not a:
+        return None
+    pieces, owner = [], []
+    for i, l in enumerate(src_lines):
+        code = re.sub(r"/\*@.*?\*/", "", l.split("//")[0]) if not l.strip().startswith("//") else ""
+        sq = re.sub(r"\s+", "", code)
+        pieces.append(sq)
+        owner.extend([i] * len(sq))
+    joined = "".join(pieces)
+    # trailing-comma normalisation on the joined text, keeping the owner map aligned
+    keep = [k for k, ch in enumerate(joined) if not (ch == "," and k + 1 < len(joined) and joined[k + 1] in ")]}")]
+    norm = "".join(joined[k] for k in keep)
+    own = [owner[k] for k in keep]
+    pos = [m.start() for m in re.finditer(re.escape(a), norm)]
+    if len(pos) != 1:
+        return None
+    first = own[pos[0]]
+    last = own[pos[0] + len(a) - 1]
+    if exact:
+        # the anchor must start a line group
+        if pos[0] > 0 and own[pos[0] - 1] == first:
+            return None
+    if not a.endswith(";") and not a.endswith("{"):
+        k = pos[0] + len(a)
+        depth = 0
+        while k < len(norm):
+            ch = norm[k]
+            if ch in "([{":
+                depth += 1
+            elif ch in ")]}":
+                if depth == 0:
+                    break
+                depth -= 1
+            elif ch == ";" and depth == 0:
+                last = own[k]
+                break
+            k += 1
+    return first, last
+
+
 def sub_markers(item, contract, out, assume=False, twin=None):
     """Emit one function (or its signature only when assumed) with contract text spliced in."""
     if contract is not None:
@@ -396,6 +446,12 @@ def sub_markers(item, contract, out, assume=False, twin=None):
                 hits = [i for i, l in enumerate(src_lines) if l.strip() == anchor[1:].strip()]
             else:
                 hits = [i for i, l in enumerate(src_lines) if anchor in l]
+            if len(hits) == 0:
+                # layout-insensitive second try (a reformatted statement: rustfmt splits / joins lines, adds trailing commas)
+                hit = _anchor_across_lines(src_lines, anchor.lstrip("="), exact=anchor.startswith("="))
+                if hit is not None:
+                    first, last = hit
+                    hits = [first if where == "before" else last]
             if len(hits) != 1:
                 raise Undecided("lost-anchor", f"{path}: proof anchor {anchor!r} matches {len(hits)} lines", fn=path)
             (inserts_before if where == "before" else inserts_after).setdefault(hits[0], []).extend(lines)
